@@ -150,6 +150,35 @@ def run(ctx):
     n = len(hists)
     embs = [TICKS[i % len(TICKS)] for i in range(n)]
     validate(ctx, hists, embs, "V")
+    # R: behaviours of ImagerGeometry.tla itself (TLC -simulate writes one file per random behaviour; the requests are read off the `req`
+    # variable of every state) replayed on a real imager; the fitted data are two points spanning the requested box plus an interior one
+    r, behaviours = tlc.simulate_behaviours("ImagerGeometry", dict(MaxE=6, MaxPs=3, MaxLen=6, CtorTruncates=False), 250 if quick else 6000, 7, ctx.seed + 11,
+                                            invariants=["SquarePixels", "ResTimesPs", "PixelSizeKept", "Contains"])
+    ctx.model("ImagerGeometry random behaviours (simulation mode, invariants checked along each)", r)
+    rh = []
+    for states in behaviours:
+        ops = []
+        for st in states[1:]:
+            q = st["req"]
+            h2 = lambda v: v // 2          # the model counts half ticks; requests are whole ticks
+            if q[0] == "ctor":
+                ops.append(["ctor", (h2(q[1][0]), h2(q[1][1])), (h2(q[2][0]), h2(q[2][1])), h2(q[3])])
+            elif q[0] == "birth":
+                ops.append(["birth", (h2(q[1][0]), h2(q[1][1]))])
+            elif q[0] == "pers":
+                ops.append(["pers", (h2(q[2][0]), h2(q[2][1]))])
+            elif q[0] == "pix":
+                ops.append(["pix", h2(q[3])])
+            elif q[0] == "fit":
+                b0_, b1_, p0_, p1_ = h2(q[1][0]), h2(q[1][1]), h2(q[2][0]), h2(q[2][1])
+                pts = [[b0_, p1_], [b1_, p0_], [(b0_ + b1_) // 2, (p0_ + p1_) // 2 or p0_]]
+                if p0_ == 0:          # persistence 0 is a legal coordinate of the box, not of a plotted pair: keep the box, lift the pair
+                    pts = [[b0_, p1_], [b1_, p0_], [b0_, p0_]]
+                ops.append(["fit", [pts], ctx.rng.random() < 0.5, ctx.rng.random() < 0.3, ctx.rng.random() < 0.4])
+        if ops and ops[0][0] == "ctor":
+            rh.append(ops)
+    ctx.extra["spec_generated_histories"] = len(rh)
+    validate(ctx, rh, [TICKS[i % len(TICKS)] for i in range(len(rh))], "R")
 
 
 def extra_params_table(ctx):
